@@ -2,7 +2,7 @@
 use crate::core::Rng;
 use crate::model::cal;
 use crate::model::dur::*;
-use crate::model::scale::{greg_zero_ns, SCALES};
+use crate::model::scale::{greg_zero_ns, zero_tai_ns, SCALES};
 use hifitime::TimeScale;
 
 pub const DELTAS: [i128; 7] = [-3, -2, -1, 0, 1, 2, 3];
@@ -148,6 +148,33 @@ pub fn reading_lattice(s: TimeScale, leap: &[(i64, i64)]) -> Vec<i128> {
         base.push(t - z);
         base.push(t + o as i128 * NS_S - z);
         base.push(t + (o as i128 - 1) * NS_S - z);
+    }
+    // the constants of the scales themselves, and their mirror images about zero, as readings and as TAI counts: offsets
+    // between references (19 s, 33 s, 32.184 s), reference dates seen from another scale. A comparison with such a constant
+    // through the x == -x equality of durations, or a short-cut "this is the reference epoch", fires at these single instants.
+    // (zero_tai_ns is defined for the uniform scales; UTC shares TAI's count origin, ET / TDB count from J2000 noon)
+    let zt = |x: TimeScale| -> i128 {
+        match x {
+            TimeScale::UTC => 0,
+            TimeScale::ET | TimeScale::TDB => greg_zero_ns(x),
+            _ => zero_tai_ns(x),
+        }
+    };
+    let zs = zt(s);
+    for s2 in SCALES {
+        for k in [zt(s2), greg_zero_ns(s2), zt(s2) - zs, greg_zero_ns(s2) - z, zt(s2) + greg_zero_ns(s2)] {
+            for sign in [1i128, -1] {
+                base.push(sign * k); // as a reading in s
+                base.push(sign * k - zs); // as a TAI count
+                base.push(sign * k - z); // as a count from 1900-01-01 of s's own calendar
+            }
+        }
+    }
+    for k in [19 * NS_S, 33 * NS_S, 32_184_000_000i128, 14 * NS_S, 51_184_000_000, 65_184_000_000, 37 * NS_S, 10 * NS_S] {
+        for sign in [1i128, -1] {
+            base.push(sign * k);
+            base.push(sign * k - zs);
+        }
     }
     for b in base {
         for d in [-NS_S, -1000, -3, -2, -1, 0, 1, 2, 3, 1000, NS_S] {
